@@ -1,7 +1,7 @@
 (* Api.v — histories of API calls over a growing pool, and the observation
    text the correspondence harness compares.  A case of every suite is a
    [list step]; the Go harness executes the same steps on the real library. *)
-From Secs Require Export Msg.
+From Secs Require Export Msg Parser.
 Open Scope Z_scope.
 Open Scope string_scope.
 
@@ -38,11 +38,16 @@ Inductive step :=
 | SCtlLinktestRsp (r : nat)
 | SCtlRejectReq (sid : Z) (pt st : byte) (sys : bytes) (reason : byte)
 | SCtlSeparateReq (sid : Z) (sys : bytes)
-| SHeader (typ : bytes) (size : Z).          (* getHeaderBytes, through the verif hook *)
+| SHeader (typ : bytes) (size : Z)           (* getHeaderBytes, through the verif hook *)
+| SSml (input : bytes) (alnum : list Z) (floats : float_oracle)   (* sml.Parse *)
+| SPick (r : nat) (i : nat)                  (* the i-th message of a parse result *)
+| SLex (input : bytes) (alnum : list Z).     (* the token stream, through the verif hook *)
 
 Inductive entry :=
 | EItem (t : item) | EMsg (m : msg) | ECtl (h : bytes)
 | EHeader (o : option bytes)
+| EParse (r : presult)
+| ETokens (input : bytes) (l : list token)
 | EPanic            (* the call panicked *)
 | EFail             (* a parser reported failure (ok = false) *)
 | ESkip.            (* the step referred to something that is not there *)
@@ -164,6 +169,14 @@ Definition eval_step (p : pool) (s : step) : entry :=
   | SCtlRejectReq sid pt st sys reason => of_ctl (spec_reject_req sid pt st sys reason)
   | SCtlSeparateReq sid sys => of_ctl (spec_separate_req sid sys)
   | SHeader typ size => EHeader (header_bytes typ size)
+  | SSml input alnum floats =>
+    let r := sml_parse alnum floats input in if r_crashed r then EPanic else EParse r
+  | SPick r i =>
+    match nth_error p r with
+    | Some (EParse res) => match nth_error (r_msgs res) i with Some m => EMsg m | None => ESkip end
+    | _ => ESkip
+    end
+  | SLex input alnum => ETokens input (lex_all alnum input)
   end.
 
 Definition run (steps : list step) : pool :=
@@ -232,6 +245,29 @@ Definition obs_msg (m : msg) : bytes :=
 Definition obs_ctl (h : bytes) : bytes :=
   x43 :: kv "type" (hexf (ctl_type h)) ++ kv "bytes" (hexf (ctl_to_bytes h)).
 
+Definition diag_text (d : Z * Z * Z) : bytes :=
+  let '(l, c, k) := d in fmt_int l ++ [x3a] ++ fmt_int c ++ [x3a] ++ fmt_int k.
+Definition diags_field (l : list (Z * Z * Z)) : bytes :=
+  match l with [] => [x2d] | _ => join_with x2c (map diag_text l) end.
+
+Definition toktype_code (t : toktype) : Z :=
+  match t with
+  | TEOF => 0 | TError => 1 | TComment => 2 | TMsgEnd => 3 | TStreamFunction => 4 | TWaitBit => 5
+  | TDirection => 6 | TMsgName => 7 | TLAB => 8 | TRAB => 9 | TItemType => 10 | TItemSize => 11
+  | TNumber => 12 | TBool => 13 | TVariable => 14 | TQuoted => 15 | TEllipsis => 16
+  end.
+Definition lexerr_code (e : option lexerr) : bytes :=
+  match e with
+  | Some LEUnexpectedChar => B"e1" | Some LEBadSize => B"e2" | Some LEUnclosedString => B"e3" | Some LEBadNumber => B"e4"
+  | None => []
+  end.
+Definition token_text (input : bytes) (t : token) : bytes :=
+  let '(l, c) := linecol input (t_off t) in
+  fmt_int (toktype_code (t_typ t)) ++ [x3a] ++
+  (match t_err t with Some _ => lexerr_code (t_err t) | None => hexf (t_val t) end) ++ [x3a] ++ fmt_int l ++ [x3a] ++ fmt_int c.
+Definition tokens_field (input : bytes) (l : list token) : bytes :=
+  match l with [] => [x2d] | _ => join_with x3b (map (token_text input) l) end.
+
 Definition obs_entry (e : entry) : bytes :=
   match e with
   | EItem t => obs_item t
@@ -239,6 +275,8 @@ Definition obs_entry (e : entry) : bytes :=
   | ECtl h => obs_ctl h
   | EHeader (Some b) => x48 :: kv "bytes" (hexf b)
   | EHeader None => x48 :: kv "bytes" (B"err")
+  | EParse r => x53 :: kv "n" (fmt_int (Z.of_nat (length (r_msgs r)))) ++ kv "errs" (diags_field (r_errs r)) ++ kv "warns" (diags_field (r_warns r))
+  | ETokens input l => x54 :: kv "toks" (tokens_field input l)
   | EPanic => [x50]
   | EFail => [x4e]
   | ESkip => [x58]
